@@ -327,7 +327,9 @@ def main():
           vec = {"kind": "dec", "bits": bits, "sym": bool(sym), "w": [numeric.pair(numeric.frac(x)) for x in data.flatten()],
                  "scale": [numeric.pair(p[1]) for p in ref],
                  # the tensor's OWN zero points (C04 has compared them with the reference; on an exact tie either neighbour is right)
-                 "zp": [int(z) for z in tp["zp"]] if len(tp["zp"]) == len(ref) else [int(p[0]) for p in ref], "ch": [int(c) for c in ch],
+                 # a tensor carrying ONE zero point where the reference has one per channel decodes every channel under that one
+                 "zp": [int(z) for z in tp["zp"]] if len(tp["zp"]) == len(ref) else [int(tp["zp"][0])] * len(ref) if len(tp["zp"]) == 1 else [int(p[0]) for p in ref],
+                 "ch": [int(c) for c in ch],
                  "nbytes": len(raw), "bytes": list(raw) if bits == 4 else [], "codes": [] if bits == 4 else [int(c) for c in numeric.stored_codes(tp, raw, bits)][:n]}
           if bits != 4 and len(vec["codes"]) != n:
             chk.violation("constant %s stores %d bytes for %d elements of %d bits" % (where, len(raw), n, bits), dict(rep, clause="length", tensor=tp["name"]))
